@@ -5,11 +5,11 @@ from common import ENV, VERIF, REPO, BUILD, sh
 READY = True
 
 META = {
-    "technique": "Lean 4 proof (inductive invariant over all reachable states of a lock-granularity transition system of AutoReloader/Notifier, any number of threads) + schedules enumerated from the model and replayed on the real AutoReloader with a deterministic scheduler over real threads (verif_hooks yield points)",
+    "technique": "Lean 4 proof (inductive invariants over all reachable states of a lock-granularity transition system of AutoReloader/Notifier, any number of threads) + schedules enumerated from the model and replayed on the real AutoReloader with a deterministic scheduler over real threads (verif_hooks yield points) + mutual-exclusion pokes at every yield point + the real watch-fs backend driven through scenarios and model-predicted operation sequences",
     "category": "proof",
-    "text": "Kernel-checked theorems over every reachable state of the reloader protocol model (any number of acquiring, requesting and fast-reload-switching threads, any interleaving of the atomic steps, creator callbacks that issue requests / switch fast reload / fail, freshness callback): a request that returned before an acquire locked is served by the environment that acquire hands out (creator started or templates cleared after the flag was set); no step replaces, rebuilds or clears the environment while a guard is held; every creator call or clear is caused by its own observation and the flag is observed true at most once per request; a request arriving while the creator runs keeps the flag up and the next acquire rebuilds. The model is tied to /repo by replaying model-enumerated schedules (all interleavings at the hook points for the small boxes, eager-return-reduced or sampled for 3x3) on the real code and comparing the whole observation (arrival point of every step, generation and loader-call number seen through every guard, creator calls with their step), plus the property itself evaluated on the observed history.",
+    "text": "Kernel-checked theorems over every reachable state of the reloader protocol model (any number of acquiring, requesting and fast-reload-switching threads, any interleaving of the atomic steps, creator callbacks that issue requests / switch fast reload / fail / panic, freshness callback): a request that returned before an acquire locked is served by the environment that acquire hands out (creator started or templates cleared after the flag was set); no step replaces, rebuilds or clears the environment while a guard is held; every creator call or clear is caused by its own observation; a request is served AT MOST ONCE (request_served_at_most_once: flag observations + the one still owed <= flag RAISES + failed creator calls, a burst of requests between two checks is one raise; reloads_le_requests); every reload decision is taken UNDER the cached_env lock and no other acquire locks between an acquire's lock and its decision (check_under_lock, observation_only_by_holder) - and the variant model that checks before it locks (seeded change C20-6) loses a returned request and calls the creator twice for one request, with concrete schedules (variant_loses_request, variant_spurious_create, variant_decides_without_lock); a request arriving while the creator runs keeps the flag up and the next acquire rebuilds. The model is tied to /repo by replaying model-enumerated schedules (all interleavings at the hook points for the small boxes, eager-return-reduced or sampled for 3x3) on the real code and comparing the whole observation (arrival point of every step, generation and loader-call number seen through every guard, creator calls with their step), plus the property itself evaluated on the observed history.",
     "design_ref": "DESIGN.md §3 C20",
-    "level_note": "Trusted: Lean kernel; hand transcription of acquire_env/request_reload/should_reload/prepare_and_mark_reload/keep_reload_pending/set_fast_reload/set_callback into MJ/Model/Reloader.lean, tied three ways: (a) the per-function sequence of shared accesses (locks, flag/fast/callback reads and writes, creator, clear, hand-out) is re-extracted from lib.rs on every run and proved equal to the sequence the model's steps assume (MJ.C20.accesses_as_modelled; regex extractor lib/tables/c20.py is trusted), so a new access anywhere breaks the tie even where no hook sits; (b) schedule replay at hook granularity (every notifier-lock acquisition of acquire_env except the re-arm after a failed creator is preceded by a hook); (c) the property evaluated on the observed history. The fs-watcher closure is proved to perform request_reload's critical sections (fs_callback_is_request); its event filter (the matches! pattern) is re-extracted on every run, evaluated on every concrete EventKind of the vendored notify-types crate and proved to accept every kind that denotes a change of file content or of the set of files, for every RenameMode (every_namespace_change_event_requests, all_rename_modes_request), and to reject access/metadata events; in both tiers a scratch crate with the real watch-fs feature drives real file changes (write, create, delete, rename inside / out of / into the tree, directory rename, directory moved out, atomic save, move of the watched root; touch reported only) x {full, fast, persistent} and requires a notification and an environment that reflects the disk at the next acquire (skipped, and said so, if the sandbox delivers no inotify events). The watcher's LIFETIME is modelled (watching / persistent / registered; prepare drops it per dropWatcher, creator or an outside thread re-registers): the drop condition's truth table is re-extracted and proved equal to the model's (drop_cond_as_modelled, watcher_kept_if_fast_or_persistent), watcher_alive_whenever_needed holds in every reachable state, and the real test runs SEQUENCES (request_reload + 3 successive file changes, an acquire after each) for {full, fast, persistent, fast+persistent} x {registered in the creator, once from outside}. A genuine race found this way (set_fast_reload(true) from another thread between the drop decision and the create-or-clear decision left the paths unwatched) was repaired in fix 5725511 (the decision is taken once); the model carries the decided value (fastSeen), no_clear_after_drop / dropped_then_creator_runs prove that an acquire that threw the watcher away always runs the creator under every interleaving, and the real scenario is replayed through the AfterReset hook on every run. A PANICKING creator is a third creator outcome in model, replay and oracle: the panic propagates out of acquire_env without re-arming the flag and poisons the cached_env mutex, every later acquire_env panics on lock().unwrap() (theorem panic_never_serves_stale: no guard is handed out after a creator panic; the example next to it shows that a lock() that recovers from the poison would hand out the stale environment; the table item records how every lock() result is consumed). That the reloader is unusable after a creator panic is outside C20's statement and only recorded (coverage.info). Not covered: in full-reload mode without persistent_watch the fs watcher is dropped before the creator runs and only exists again once the creator calls watch_path, so file changes in that window produce no notification at all (the creator must register before it reads).",
+    "level_note": "Trusted: Lean kernel; hand transcription of acquire_env/request_reload/should_reload/prepare_and_mark_reload/keep_reload_pending/set_fast_reload/set_callback into MJ/Model/Reloader.lean, tied four ways: (a) the per-function sequence of shared accesses (locks incl. the fs watcher's own mutex, flag/fast/callback reads and writes, creator, clear, hand-out) is re-extracted from lib.rs on every run and proved equal to the sequence the model's steps assume (MJ.C20.accesses_as_modelled; regex extractor lib/tables/c20.py is trusted), so a new access anywhere breaks the tie even where no hook sits; (b) schedule replay at hook granularity: every notifier-lock acquisition of acquire_env is preceded by a yield point, incl. the re-arm after a failed creator (BeforeRemark = the notifier look-up of keep_reload_pending) and the window between the fast-reload clear and the hand-out (AfterClear); configurations with a freshness + on_should_reload callback registered (f0/f1) and with NO callback registered (g0/g1: the None arms); (c) MUTUAL EXCLUSION is probed, not assumed: for every yield point of acquire_env (Q K Z B S T C E F H) x {full, fast, no callbacks} x {creator ok, fails, panics} a second acquirer that the model says is blocked is released from BeforeLock while the holder stands still and must not arrive anywhere (bounded wait; 'blocked' is what the unchanged code always gives), so a cached_env lock that is dropped early (before the re-arm, around the creator) is a failing input; contention on the NOTIFIER mutex (user callbacks run under it): a request_reload / a file event issued while the freshness callback holds the mutex must be served by the next acquire; (d) the property evaluated on the observed history. The fs-watcher closure is proved to perform request_reload's critical sections (fs_callback_is_request); its event filter (the matches! pattern) is re-extracted on every run, evaluated on every concrete EventKind of the vendored notify-types crate and proved to accept every kind that denotes a change of file content or of the set of files, for every RenameMode, and to reject access/metadata events; in both tiers a scratch crate with the real watch-fs feature drives real file changes (write, nested write, create, delete, rename inside / out of / into the tree, directory rename, directory moved out, atomic save, move of the watched root; touch reported only) x {full, fast, persistent}, TWO registered paths, non-recursive registration, unwatch of one of two paths, bursts (several events for one save, the next change right after the acquire), registration calls while events keep flowing (watchdog: a scenario that does not end is a finding), and requires a notification and an environment that reflects the disk at the next acquire (skipped, and said so, if the sandbox delivers no inotify events). The watcher's LIFETIME is modelled (watching / persistent / registered; prepare drops it per dropWatcher, creator or an outside thread re-registers): the drop condition's truth table is re-extracted and proved equal to the model's, watcher_alive_whenever_needed holds in every reachable state, and seeded random OPERATION SEQUENCES (persistent_watch and fast reload toggled at run time, watch_path from the creator or from outside, requests, single-event file changes) are run on the real backend with the model's prediction for every change: a change the model says is watched must be notified and served (a notification the model does not expect is only reported: a dropped notify watcher shuts down asynchronously). Genuine defects found and repaired: fix 5725511 (fast-reload decision taken once) and fix e3d615c (watch_path / unwatch_path held the notifier mutex across the call into notify, whose thread takes that mutex in the event callback: registering while events were delivered deadlocked; the watcher now has its own mutex). A PANICKING creator is a third creator outcome in model, replay and oracle (panic_never_serves_stale). No verdict depends on wall-clock timing: every wait that decides one is a bounded wait for an event that must arrive, or (pokes, quiet windows) a wait whose expiry is the expected outcome on the unchanged code. Not covered: in full-reload mode without persistent_watch the fs watcher is dropped before the creator runs and only exists again once the creator calls watch_path, so file changes in that window produce no notification at all (the creator must register before it reads); callbacks that call back into the same notifier from under its mutex (deadlock by construction of std::sync::Mutex) are not exercised.",
 }
 
 NPROC = 8
@@ -27,7 +27,7 @@ def parse_cfg(cfg):
             ths.append(("C", t == "C1"))
         else:
             ths.append(("A", t[2] == "1", t[4] in "12", t[5:].replace("-", ""), t[4] == "2"))
-    return parts[0] == "f1", parts[1] == "e1", ths
+    return parts[0] in ("f1", "g1"), parts[1] == "e1", ths
 
 
 def parse_obs(obs):
@@ -88,8 +88,10 @@ def oracle(cfg, sched, obs):
                     sets.append((k, nxt, t))
                 if p == "Z":
                     a["reset"] = k
-                    if j + 1 < len(evs) and evs[j + 1][1] == "H":
-                        a["clear_step"] = evs[j + 1][0]     # Z -> H without the creator: the clear path
+                    if j + 1 < len(evs) and evs[j + 1][1] in ("H", "E"):
+                        # Z -> AfterClear (or, on trees without that yield point, Z -> hand-out) without
+                        # the creator: the clear path; the clear happened in the step that arrived there
+                        a["clear_step"] = evs[j + 1][0]
                 if p == "B" and j + 1 < len(evs):
                     a["leftB"] = evs[j + 1][0]
                 if p == "H":
@@ -194,7 +196,7 @@ def oracle(cfg, sched, obs):
             if have_env_before(bk):
                 fails.append((f"fast reload is on but creator call {gg} (step {bk}) replaced an existing environment", "fast-reload:creator-called-again"))
     # on_should_reload callback: once per request_reload, plus once per callback-triggered reload
-    if "O" in d:
+    if "O" in d and d["O"] != "-":
         o = int(d["O"])
         returned = sum(1 for (_, kr, _) in sets if kr < 10**9)
         if not (returned <= o <= returned + len(resets)):
@@ -202,9 +204,38 @@ def oracle(cfg, sched, obs):
     return fails, obligations
 
 
-def run_parallel(exe, text, seed, tier):
+def choose_pokes(model):
+    """prefixes of model schedules that end with one acquirer INSIDE acquire_env (at each of its yield
+    points) while another acquirer has not started: the model says the latter is blocked on the
+    cached_env mutex (theorem acquirers_blocked).  One prefix per (configuration family, yield point,
+    creator outcome of the holder)."""
+    chosen = {}
+    for line in model:
+        cfg, sched, pred = line.split("\t")
+        if pred.startswith("bad:") or not sched.isdigit():
+            continue
+        _, _, ths = parse_cfg(cfg)
+        acq_ids = [i for i, t in enumerate(ths) if t[0] == "A"]
+        if len(acq_ids) < 2:
+            continue
+        P = parse_obs(pred).get("P", "").split(",")
+        started = set()
+        for k, (ch, pt) in enumerate(zip(sched, P)):
+            t = int(ch)
+            started.add(t)
+            if t in acq_ids and pt in ("Q", "K", "Z", "B", "S", "T", "C", "E", "F", "H"):
+                idle = [u for u in acq_ids if u not in started]
+                if idle:
+                    outcome = "panics" if ths[t][4] else "fails" if ths[t][2] else "ok"
+                    key = (cfg.split(".")[0], pt, outcome)
+                    if key not in chosen:
+                        chosen[key] = (cfg, sched[:k + 1], idle[0])
+    return [chosen[k] for k in sorted(chosen)]
+
+
+def run_parallel(exe, text, seed, tier, per_proc=200):
     lines = text.splitlines()
-    n = max(1, min(NPROC if tier != "thorough" else 12, len(lines) // 200 + 1))
+    n = max(1, min(NPROC if tier != "thorough" else 12, len(lines) // per_proc + 1))
     chunks = [lines[i::n] for i in range(n)]
     e = dict(ENV); e["VERIF_SEED"] = str(seed); e["VERIF_TIER"] = tier
     procs = []
@@ -230,7 +261,7 @@ def run_parallel(exe, text, seed, tier):
     return res, bad
 
 
-def wfs_smoke(r):
+def wfs_prepare(r):
     """the real watch-fs feature (notify) with real file changes in a temp dir.
     Built as a scratch crate under .build/ (needs `notify`, which harness/Cargo.toml does not have)."""
     d = os.path.join(BUILD, "c20_wfs")
@@ -244,31 +275,125 @@ def wfs_smoke(r):
     shutil.copy(os.path.join(VERIF, "lib", "props", "c20_wfs", "main.rs"), os.path.join(d, "src", "main.rs"))
     shutil.copy(os.path.join(REPO, "Cargo.lock"), os.path.join(d, "Cargo.lock"))
     env = dict(ENV); env["CARGO_TARGET_DIR"] = os.path.join(BUILD, "cargo-c20wfs")
-    rc, out, err = sh(["cargo", "build", "--offline"], cwd=d, timeout=900, env=env)
-    if rc != 0:
-        r.extra["watch_fs_smoke"] = "scratch crate does not build: " + " | ".join(l for l in err.splitlines() if l.startswith("error"))[:300]
+    # ---- the watcher's lifetime as a differential stream: random operation sequences (persistent_watch /
+    #      fast reload toggled at run time, registration in the creator or from outside, requests, file
+    #      changes); the Lean model says for every file change whether the paths are watched at that moment
+    import random
+    rng = random.Random(r.seed * 7919 + 20)
+    n_seq = 10 if r.tier != "thorough" else 60
+    seqs = []
+    for k in range(n_seq):
+        site = "co"[k % 2]
+        ops, nx = [], 0
+        for _ in range(rng.randint(5, 9)):
+            op = rng.choice(["P0", "P1", "F0", "F1", "W", "A", "R", "R", "X", "X", "X"])
+            if op == "X":
+                nx += 1
+                if nx > 8:
+                    continue
+            ops.append(op)
+        if nx == 0:
+            ops.append("X")
+        seqs.append((site, ",".join(ops)))
+    pred = {}
+    lines = r.driver("drive_c20", "".join(f"wfs {site} {ops}\n" for site, ops in seqs))
+    for line in lines or []:
+        f = line.split("\t")
+        if len(f) == 4 and f[0] == "wfs":
+            pred[(f[1], f[2])] = f[3]
+    seqfile = os.path.join(d, "sequences.txt")
+    expect = {}
+    with open(seqfile, "w") as fh:
+        for site, ops in seqs:
+            p = pred.get((site, ops))
+            if p is None or "?" in p:
+                r.broken.append(f"no model prediction for the watcher sequence {site} {ops}: {p}")
+                continue
+            marks = iter(p.split("|")[0])
+            real_ops = ",".join(("X+" if next(marks) == "n" else "X-") if op == "X" else op for op in ops.split(","))
+            expect[(site, real_ops)] = (ops, p)
+            fh.write(f"{site} {real_ops}\n")
+    return {"d": d, "env": env, "seqfile": seqfile, "expect": expect, "n_seq": len(seqs)}
+
+
+def wfs_run(ctx):
+    """build the scratch crate and run it (in a thread next to the schedule replay: every verdict of the
+    watch-fs test is a bounded wait for an event that must arrive, none depends on how fast it runs)"""
+    d, env = ctx["d"], ctx["env"]
+    try:
+        rc, out, err = sh(["cargo", "build", "--offline"], cwd=d, timeout=900, env=env)
+        if rc != 0:
+            ctx["build_error"] = " | ".join(l for l in err.splitlines() if l.startswith("error"))[:300]
+            return
+        ctx["result"] = sh([os.path.join(env["CARGO_TARGET_DIR"], "debug", "c20_wfs"), ctx["seqfile"]], timeout=900, env=env)
+    except subprocess.TimeoutExpired:
+        ctx["timeout"] = True
+
+
+def wfs_finish(r, ctx):
+    if ctx.get("build_error") is not None:
+        r.extra["watch_fs_smoke"] = "scratch crate does not build: " + ctx["build_error"]
         r.broken.append("watch-fs smoke test does not build against /repo's current tree")
         return
-    rc, out, err = sh([os.path.join(env["CARGO_TARGET_DIR"], "debug", "c20_wfs")], timeout=600, env=env)
+    if ctx.get("timeout") or "result" not in ctx:
+        r.broken.append("watch-fs test did not end within 900 s")
+        return
+    rc, out, err = ctx["result"]
+    expect = ctx["expect"]
     res = []
+    hang = False
     for line in out.splitlines():
         f = line.split("\t")
         if len(f) >= 4 and f[0] == "wfs":
             res.append(" ".join(f[1:]))
             r.hist["watch_fs_smoke"][f[2]] += 1
             if f[2] == "FAIL":
-                r.oracle_failure("wfs " + f[1], "watch-fs smoke test: " + f[3], "watch-fs:" + f[1])
+                if f[3].startswith("hang:"):
+                    hang = True
+                    r.oracle_failure("wfs " + f[1], "watch-fs test: " + f[3], "watch-fs:hang:" + f[1].split(" ")[0])
+                else:
+                    r.oracle_failure("wfs " + f[1], "watch-fs smoke test: " + f[3], "watch-fs:" + f[1])
             elif f[2] in ("ok", "info"):
                 r.count("wfs " + f[1], f[2] == "ok")
-    if rc != 0 or not res:
+        if len(f) == 4 and f[0] == "wfsseq":
+            key = (f[1], f[2])
+            if key not in expect:
+                continue
+            ops, p = expect.pop(key)
+            case = f"wfsseq {f[1]} {f[2]}"
+            r.count(case, True)
+            d_obs = f[3].split("|")
+            got, want = d_obs[0], p.split("|")[0]
+            problem = [x for x in d_obs if x.startswith("problem=")]
+            lost = [k for k, (g, w) in enumerate(zip(got, want)) if w == "n" and g != "n"]
+            if lost or len(got) != len(want):
+                r.hist["watch_fs_sequences"]["lost-notification"] += 1
+                r.oracle_failure(case, f"file change no. {[k + 1 for k in lost]} produced no notification although the paths are registered and the model says they are watched (model {p}, real {f[3]})",
+                                 "watch-fs:sequence:lost-notification")
+            elif problem:
+                r.hist["watch_fs_sequences"]["stale"] += 1
+                r.oracle_failure(case, "watcher sequence: " + problem[0], "watch-fs:sequence:stale")
+            elif got != want:
+                # a notification where the model says nothing is watching: a watcher that was just dropped
+                # shuts down asynchronously and may still deliver (harmless: one more reload); reported only
+                r.hist["watch_fs_sequences"]["late-event-of-dropped-watcher"] += 1
+            elif d_obs[1:2] != p.split("|")[1:2]:
+                r.hist["watch_fs_sequences"]["creator-calls-differ(info)"] += 1
+            else:
+                r.hist["watch_fs_sequences"]["as-modelled"] += 1
+    if not hang and not any(x.startswith("all skip") for x in res):
+        for (site, real_ops) in expect:
+            r.broken.append(f"no result for the watcher sequence {site} {real_ops}")
+    if (rc != 0 and not hang) or not res:
         r.broken.append(f"watch-fs smoke test crashed rc={rc}: {err[-200:]}")
     r.extra["watch_fs_smoke"] = res
+    r.extra["watch_fs_sequences"] = ctx["n_seq"]
 
 
 def run(r):
     r.rule = ("schedules = sequences of scheduling decisions (which thread runs from its yield point to its next one) enumerated by the "
               "Lean model over its enabled threads: ALL schedules (or, above a cap, a seeded sample) for 1-2 acquires x 0-2 requests (plain, and with one special acquire = every "
-              "combination of {freshness callback true} x {creator returns Err} x {creator script: none, request, two requests, switch fast on, switch fast on + request}, plus a PANICKING creator with/without callback and inner request), and for 3 acquires (one special, every position) x 0-1 requests with eager return; extra threads for the rest of the Notifier API: set_fast_reload(true/false) toggled between acquires with a request pending, set_callback(|| b) replacing the freshness callback, request_reload through the notifier clone the creator kept; sequential probes for dead notifiers and mutex blocking, with fast "
+              "combination of {freshness callback true} x {creator returns Err} x {creator script: none, request, two requests, switch fast on, switch fast on + request}, plus a PANICKING creator with/without callback and inner request), and for 3 acquires (one special, every position) x 0-1 requests with eager return; extra threads for the rest of the Notifier API: set_fast_reload(true/false) toggled between acquires with a request pending, set_callback(|| b) replacing the freshness callback, request_reload through the notifier clone the creator kept; the same small boxes with no callback registered at all (g0/g1); three acquirers with one failing creator and two requests; mutual-exclusion pokes at every yield point; sequential probes for dead notifiers, mutex blocking and contention on the notifier mutex, with fast "
               "reload off/on; quick adds a seeded sample over the 3x3 box, thorough adds ALL eager-return schedules of every 3x(0..3) "
               "configuration and a larger sample at full granularity.  A schedule is non-trivial when at least one request returned "
               "before an acquire locked (an obligation of the property exists).")
@@ -295,6 +420,12 @@ def run(r):
     model = r.driver("drive_c20", pre + cfgs)
     if model is None:
         return
+    # the watch-fs test runs next to the schedule replay
+    t0 = time.time()
+    wctx = wfs_prepare(r)
+    import threading
+    wthread = threading.Thread(target=wfs_run, args=(wctx,))
+    wthread.start()
     r.extra["configurations"] = len(cfgs.splitlines())
     r.log(f"{len(cfgs.splitlines())} configurations, {len(model)} schedules from the model")
     mtext = "\n".join(model) + "\n"
@@ -304,15 +435,20 @@ def run(r):
     # a step time-out can be caused by machine load: re-run (a few of) those schedules alone with a long time-out
     retried = 0
     timed_out = sorted(k for k, obs in real.items() if obs.startswith("bad:timeout"))
-    # few time-outs = load (retry them all, alone); many = systematic divergence (retry a handful)
+    # few time-outs = load (retry them all, alone); many = systematic divergence (retry a handful).
+    # A retry that times out again with the long time-out is systematic: after 3 of those stop retrying
+    # (each costs the long time-out; the first results stand and are reported as they are)
+    still = 0
     for (cfg, sched) in (timed_out if len(timed_out) <= 60 else timed_out[:5]):
-        obs = real[(cfg, sched)]
-        if True:
-            retried += 1
-            rc, out, err = r.harness(exe, ["one", cfg, sched], env={"C20_TIMEOUT_MS": "20000"})
-            f = out.strip().split("\t")
-            if len(f) == 3:
-                real[(cfg, sched)] = f[2]
+        if still >= 3:
+            break
+        retried += 1
+        rc, out, err = r.harness(exe, ["one", cfg, sched], env={"C20_TIMEOUT_MS": "20000"})
+        f = out.strip().split("\t")
+        if len(f) == 3:
+            real[(cfg, sched)] = f[2]
+            if f[2].startswith("bad:timeout"):
+                still += 1
     r.extra["timeouts_retried"] = retried
     # all-schedules configurations are exhaustive at their granularity; the 3x3 box is sampled in quick
     r.exhaustive = False
@@ -348,6 +484,33 @@ def run(r):
             r.oracle_failure(case, what, site)
         if n_all % 3001 == 1:
             r.sample({"case": case, "real": obs, "model": pred, "obligations": obligations})
+    # ---- mutual exclusion at every yield point of acquire_env: a second acquirer that the model says is
+    #      blocked is released from BeforeLock and must not get anywhere while the holder stands still
+    pokes = choose_pokes(model)
+    ptext = "".join(f"{cfg}\t{pre}\tpoke={t}\n" for cfg, pre, t in pokes)
+    pres, bad = run_parallel(exe, ptext, r.seed, r.tier, per_proc=6) if pokes else ({}, [])
+    for b in bad:
+        r.broken.append(b)
+    for cfg, pre, t in pokes:
+        case = f"{cfg} {pre}!{t}"
+        obs = pres.get((cfg, f"{pre}!{t}"))
+        if obs is None:
+            r.broken.append(f"no result from the real code for poke {case}")
+            continue
+        d = parse_obs(obs)
+        point = d.get("P", "").split(",")[-1]
+        r.count("poke " + case, True)
+        r.hist["poke_holder_at"][point] += 1
+        if obs.startswith("bad:"):
+            r.broken.append(f"poke {case}: {obs[:120]}")
+        elif d.get("K") != "blocked":
+            r.hist["poke"]["not-blocked"] += 1
+            r.oracle_failure(case, f"a second acquire_env was released while thread {pre[-1]} stood at yield point {point} inside acquire_env "
+                             f"and it got to {d.get('K')}: the cached_env mutex does not cover that point (the model says it is blocked: acquirers_blocked)",
+                             f"mutex:acquirer-not-blocked@{point}")
+        else:
+            r.hist["poke"]["blocked"] += 1
+    r.extra["pokes"] = len(pokes)
     # mutex-level probes
     rc, out, err = r.harness(exe, ["probe"])
     for line in out.splitlines():
@@ -361,8 +524,8 @@ def run(r):
                 r.oracle_failure("probe " + f[1], f"mutex-level probe failed: {f[3]}", "probe:" + f[1])
     if rc != 0 or not out.strip():
         r.broken.append(f"probe run failed rc={rc} {err[-200:]}")
-    t0 = time.time()
-    wfs_smoke(r)
+    wthread.join()
+    wfs_finish(r, wctx)
     r.extra["watch_fs_test_wall_s"] = round(time.time() - t0, 2)
 
 
@@ -379,6 +542,11 @@ def replay(r, path):
             print(out)
             continue
         cfg, sched = case.split()
+        if "!" in sched:
+            pre, t = sched.split("!")
+            rc, out, err = r.harness(exe, ["run"], f"{cfg}\t{pre}\tpoke={t}\n")
+            print("real :", out.strip())
+            continue
         rc, out, err = r.harness(exe, ["one", cfg, sched])
         model = r.driver("drive_c20", f"{cfg} one {sched}\n")
         obs = out.strip().split("\t")[-1]
